@@ -271,24 +271,62 @@ def check_trim_twin(case, ctx):
         box = [[a_, c_], [b_, c_], [b_, d_], [a_, d_], [a_, c_]]
     if rng.random() < 0.5:
         box.reverse()
-    lohi = rng.choice([(0.0, 200.0), (1000.0, 5000.0), (0.0, 2.0 ** -7), (0.0, 0.001), (0.0, 2.0 ** 20), (-3.0, 7.5), (2.0, 5.0)])
+    # (fourth hunt) the loop given as two polylines in a curve container, either of them possibly the wrong way round, meeting up to
+    # 1e-9 .. 1e-10 of the range only: the data fix_multi_trim_curves exists to repair (sense given)
+    multi_ = rng.random() < 0.3
+    if multi_:
+        detect = False
+        cut = rng.choice([1, 2, 3])
+        flips = (rng.random() < 0.5, rng.random() < 0.5)
+        gap = rng.choice([0.0, 1e-9, 1e-10, 3e-9])
+    RANGES = [(0.0, 200.0), (1000.0, 5000.0), (0.0, 2.0 ** -7), (0.0, 0.001), (0.0, 2.0 ** 20), (-3.0, 7.5), (2.0, 5.0),
+              # (fourth hunt) ranges a few 1e-7 long and ranges 1e-4 long around 1.0: nothing may be compared with the absolute 0.0 / 1.0
+              (0.0, 2.0 ** -22), (1.0 - 2.0 ** -15, 1.0 + 2.0 ** -15), (-2.0 ** -21, 2.0 ** -21), (0.0, 1e-4)]
+    lohi_u = rng.choice(RANGES)
+    # (fourth hunt) the two directions on ranges of different length - whatever is relative is relative per direction
+    lohi_v = rng.choice(RANGES) if rng.random() < 0.4 else lohi_u
+    lohi = (lohi_u, lohi_v)
+    len_u, len_v = lohi_u[1] - lohi_u[0], lohi_v[1] - lohi_v[0]
     ctx.tag('trim-twin', 'trim-twin:aligned' if aligned else 'trim-twin:generic', 'trim-twin:sense-detected' if detect else 'trim-twin:sense-given',
-            'trim-twin:range-%s' % ('short' if lohi[1] - lohi[0] < 0.1 else 'long' if lohi[1] - lohi[0] > 100 else 'moderate'))
+            'trim-twin:loop-in-%s' % ('two-pieces' if multi_ else 'one-curve'),
+            'trim-twin:range-%s' % ('tiny' if len_u < 1e-5 else 'short' if len_u < 0.1 else 'long' if len_u > 100 else 'moderate'),
+            'trim-twin:directions-%s' % ('alike' if lohi_u == lohi_v else 'ratio>=1e4' if max(len_u, len_v) >= 1e4 * min(len_u, len_v) else 'differ'))
     ctx.nontriv(True)
 
     def build(norm, lh):
-        sdx = dict(sd, normalize_kv=norm, kvs=[[amap(k, lh) for k in kv] for kv in sd['kvs']]) if not norm else dict(sd)
+        sdx = dict(sd, normalize_kv=norm, kvs=[[amap(k, lh_) for k in kv] for kv, lh_ in zip(sd['kvs'], lh)]) if not norm else dict(sd)
         o = G.build(sdx)
         o.sample_size = n
         (u0, u1), (v0, v1) = o.domain
-        t = BSpline.Curve()
-        t.degree = 1
-        t.ctrlpts = [[u0 + (u1 - u0) * q[0], v0 + (v1 - v0) * q[1]] for q in box]
-        t.knotvector = [0.0, 0.0, 0.25, 0.5, 0.75, 1.0, 1.0]
-        t.sample_size = 21
-        if not detect:
+        if multi_:
+            from geomdl import multi as multi_mod
+            pieces = []
+            for pi_, (qs, flip) in enumerate(zip((box[:cut + 1], box[cut:]), flips)):
+                qs = [list(q) for q in qs]
+                if pi_ == 1:
+                    qs[0][0] += gap
+                    qs[-1][1] -= gap
+                if flip:
+                    qs.reverse()
+                c_ = BSpline.Curve()
+                c_.degree = 1
+                c_.ctrlpts = [[u0 + (u1 - u0) * q[0], v0 + (v1 - v0) * q[1]] for q in qs]
+                c_.knotvector = [0.0] + [i / (len(qs) - 1.0) for i in range(len(qs))] + [1.0]
+                c_.sample_size = 4 * (len(qs) - 1) + 1
+                pieces.append(c_)
+            t = multi_mod.CurveContainer(*pieces)
             t.opt = ['reversed', rev]
-        o.trims = [t]
+            o.trims = [t]
+            trimming.fix_multi_trim_curves(o, delta=0.25)
+        else:
+            t = BSpline.Curve()
+            t.degree = 1
+            t.ctrlpts = [[u0 + (u1 - u0) * q[0], v0 + (v1 - v0) * q[1]] for q in box]
+            t.knotvector = [0.0, 0.0, 0.25, 0.5, 0.75, 1.0, 1.0]
+            t.sample_size = 21
+            if not detect:
+                t.opt = ['reversed', rev]
+            o.trims = [t]
         if detect:
             trimming.fix_trim_curves(o)
         o.tessellator = tessellate.TrimTessellate()
@@ -300,10 +338,10 @@ def check_trim_twin(case, ctx):
             area += abs((q[1][0] - q[0][0]) * (q[2][1] - q[0][1]) - (q[2][0] - q[0][0]) * (q[1][1] - q[0][1])) / 2.0
             tris.append(tuple(sorted((round(x, 7), round(y, 7)) for x, y in q)))
         sense = [(c.opt_get('reversed') if hasattr(c, 'opt_get') else None) for c in o.trims]
-        return sorted(tris), area, sense, len(o.trims)
+        return sorted(tris), area, sense, (len(o.trims), [len(c) if multi_ else 1 for c in o.trims])
     try:
         with so.quiet():
-            T0, A0, s0, k0 = build(True, (0.0, 1.0))
+            T0, A0, s0, k0 = build(True, ((0.0, 1.0), (0.0, 1.0)))
     except Exception:
         raise Reject()       # the baseline itself fails: the owning property (C15) judges that
     try:
@@ -333,9 +371,11 @@ def check_trim_twin(case, ctx):
     if ties_ != 0.0:
         ctx.count('trim-twin-tie-triangles-ignored')
     ok = k0 == k1 and s0 == s1 and abs((A0 - A1) - ties_) <= 1e-6 and (aligned or (not D0 and not D1))
-    ctx.check(ok, 'trim-twin/differs', 'trimmed tessellation (%s trim %r, sample size %d, sense %s) on the knot range %r: %d trims, senses %r, '
-              '%d faces, parametric area %.6f; normalised twin: %d trims, senses %r, %d faces, area %.6f'
-              % ('grid-aligned' if aligned else 'generic', box[:4], n, 'detected' if detect else 'given %d' % rev, lohi, k1, s1, len(T1), A1,
+    ctx.check(ok, 'trim-twin/differs', 'trimmed tessellation (%s trim %r, sample size %d, sense %s) on the knot range %r: %r trims, senses %r, '
+              '%d faces, parametric area %.6f; normalised twin: %r trims, senses %r, %d faces, area %.6f'
+              % (('grid-aligned' if aligned else 'generic') + (', given as two pieces (cut %d, flipped %r, gap %g) and repaired' % (cut, flips, gap)
+                                                               if multi_ else ''),
+                 box[:4], n, 'detected' if detect else 'given %d' % rev, lohi, k1, s1, len(T1), A1,
                  k0, s0, len(T0), A0), what='trim-twin')
 
 
